@@ -138,6 +138,8 @@ type oblEvidence struct {
 	InconclusiveReasons map[string]int `json:"inconclusive_reasons,omitempty"`
 	Violations  []vioEvidence     `json:"violations,omitempty"`
 	SamplePaths []string          `json:"sample_paths,omitempty"`
+	TVSamples   int               `json:"translator_validation_samples"`
+	TVMismatches []string         `json:"translator_validation_mismatches,omitempty"`
 }
 
 type vioEvidence struct {
@@ -157,6 +159,7 @@ func cmdCheck(args []string) int {
 	solver := fs.String("solver", "z3", "z3|z3-new|cvc5")
 	logSMT := fs.Bool("log-smt", false, "keep solver transcripts under out/<prop>/smt")
 	noReplay := fs.Bool("no-replay", false, "skip native replay of counterexamples")
+	nwit := fs.Int("witnesses", 8, "per-obligation witness inputs replayed natively (translator validation); 0 disables")
 	noEvidence := fs.Bool("no-evidence", false, "do not write the evidence file")
 	var prop string
 	if len(args) > 0 && !strings.HasPrefix(args[0], "-") {
@@ -233,6 +236,7 @@ func cmdCheck(args []string) int {
 	nViol := 0
 	var samples []interface{}
 	initIncomplete := map[string]bool{}
+	tvSamples, tvMismatches := 0, 0
 	for _, o := range obls {
 		cfg := sx.DefaultConfig()
 		cfg.Workers = *workers
@@ -257,6 +261,10 @@ func cmdCheck(args []string) int {
 				}
 			}
 			return false
+		}
+		cfg.Witnesses = *nwit
+		if cfg.Thorough && *nwit == 8 {
+			cfg.Witnesses = 64
 		}
 		if *logSMT {
 			cfg.LogDir = filepath.Join(outDir, "smt")
@@ -372,6 +380,25 @@ func cmdCheck(args []string) int {
 				}
 			}
 		}
+		// translator validation: per-path witness inputs through the natively compiled harness
+		if len(R.Witnesses) > 0 && !*noReplay {
+			n, mism, err := validateWitnesses(o, R.Witnesses, genDir, outDir)
+			ev.TVSamples, ev.TVMismatches = n, mism
+			if err != nil {
+				fmt.Printf("   translator validation could not run: %v\n", err)
+				ev.TVMismatches = append(ev.TVMismatches, "native run failed: "+err.Error())
+			}
+			if len(ev.TVMismatches) > 0 {
+				for _, mm := range ev.TVMismatches {
+					fmt.Printf("   TRANSLATOR-MISMATCH %s: %s\n", o.ID, mm)
+				}
+				if verdict == "holds-within-bounds" {
+					verdict = "inconclusive"
+				}
+			}
+			tvSamples += n
+			tvMismatches += len(ev.TVMismatches)
+		}
 		ev.Verdict = verdict
 		evs = append(evs, ev)
 		if len(samples) < 12 {
@@ -431,6 +458,7 @@ func cmdCheck(args []string) int {
 				"functions_encoded": fl, "functions_encoded_from_repo": repoFuncs, "stubs": sl,
 				"queries": totalQ, "solver_s": round(solverS), "load_s": round(loadS),
 				"package_inits_incomplete": keysOf(initIncomplete),
+				"translator_validation": map[string]int{"witness_inputs_replayed_natively": tvSamples, "mismatches": tvMismatches},
 				"samples": samples, "checker_cmd": "gosmt check " + prop + " --tier " + *tier,
 				"trusted_base": []string{"go/ssa (x/tools v0.29.0)", "the SSA->SMT-LIB executor in /verif/engine", *solver, "stubs and assumptions listed here"},
 			},
@@ -506,6 +534,76 @@ func nativeReplay(cexPath, genDir string) (bool, string) {
 		}
 	}
 	return false, string(out)
+}
+
+// validateWitnesses runs the harness natively on each witness input and compares assertion
+// outcome, vacuity labels and observations with what the symbolic run predicted for that path.
+func validateWitnesses(o sx.Obligation, ws []*sx.Witness, genDir, outDir string) (int, []string, error) {
+	type item struct {
+		Harness string            `json:"harness"`
+		Model   map[string]string `json:"model"`
+	}
+	var items []item
+	for _, w := range ws {
+		items = append(items, item{o.Func, w.Model})
+	}
+	batch := filepath.Join(outDir, o.ID+".witnesses.json")
+	b, _ := json.MarshalIndent(items, "", " ")
+	os.WriteFile(batch, b, 0o644)
+	outPath := filepath.Join(outDir, o.ID+".witnesses.native.json")
+	os.Remove(outPath)
+	ovDir := filepath.Join(outDir, "overlay")
+	os.MkdirAll(ovDir, 0o755)
+	ovJSON := filepath.Join(ovDir, "overlay.json")
+	if err := sx.WriteOverlayJSON(repoDir, []string{filepath.Join(verifDir, "harness"), genDir}, ovJSON); err != nil {
+		return 0, nil, err
+	}
+	cmd := exec.Command("go", "test", "-overlay", ovJSON, "-ldflags=-checklinkname=0", "-vet=off", "-count=1", "-run", "^TestVerifBatch$", "-timeout", "600s", "./"+o.Pkg)
+	cmd.Dir = repoDir
+	tier := "quick"
+	cmd.Env = append(os.Environ(), "GOFLAGS=-mod=mod", "GOPROXY=off", "GOSUMDB=off", "GOTOOLCHAIN=local", "VERIF_BATCH="+batch, "VERIF_BATCH_OUT="+outPath, "VERIF_TIER="+tier)
+	out, _ := cmd.CombinedOutput()
+	rb, err := os.ReadFile(outPath)
+	if err != nil {
+		return 0, nil, fmt.Errorf("no native output: %s", tailStr(string(out), 1500))
+	}
+	var res []struct {
+		Failed []string          `json:"failed"`
+		Obs    map[string]string `json:"observations"`
+		Covers []string          `json:"covers"`
+	}
+	if err := json.Unmarshal(rb, &res); err != nil {
+		return 0, nil, err
+	}
+	var mism []string
+	for i, w := range ws {
+		if i >= len(res) {
+			break
+		}
+		r := res[i]
+		if len(r.Failed) > 0 {
+			mism = append(mism, fmt.Sprintf("witness %d: native run failed %v on input %v (symbolic run discharged all assertions on this path)", i, r.Failed, w.Model))
+			continue
+		}
+		if strings.Join(r.Covers, ",") != strings.Join(w.Covers, ",") {
+			mism = append(mism, fmt.Sprintf("witness %d: native covers %v != symbolic covers %v on input %v", i, r.Covers, w.Covers, w.Model))
+			continue
+		}
+		for k, v := range w.Obs {
+			if r.Obs[k] != v {
+				mism = append(mism, fmt.Sprintf("witness %d: observation %s native %s != symbolic %s on input %v", i, k, r.Obs[k], v, w.Model))
+				break
+			}
+		}
+	}
+	return len(res), mism, nil
+}
+
+func tailStr(s string, n int) string {
+	if len(s) > n {
+		return s[len(s)-n:]
+	}
+	return s
 }
 
 func cmdReplay(args []string) int {
